@@ -103,6 +103,15 @@ def scribble(o: Any) -> None:
     if isinstance(o, FrozenTrial):
         for d in (o._params, o._user_attrs, o._system_attrs):
             scribble(d)
+        for dist in list(o._distributions.values()):
+            # a deep copy owns its distribution objects too: edit them in place
+            if isinstance(dist, CategoricalDistribution):
+                dist.choices = tuple(dist.choices) + ("zz_scribble",)
+            elif isinstance(dist, (FloatDistribution, IntDistribution)):
+                dist.high = dist.high + 1000
+        for v in list(o._params.values()):
+            if isinstance(v, (list, dict)):
+                scribble(v)
         o._distributions["zz_scribble"] = FloatDistribution(0, 1)
         o.intermediate_values[987] = -1.5
         if o._values is not None:
